@@ -9,4 +9,5 @@ void _psTracePtr(const char *msg, const void *val) { (void) msg; (void) val; }
 void _psError(const char *msg) { (void) msg; }
 void _psErrorInt(const char *msg, int32 val) { (void) msg; (void) val; }
 void _psErrorStr(const char *msg, const char *val) { (void) msg; (void) val; }
+void psTraceBytes(const char *tag, const unsigned char *p, int l) { (void) tag; (void) p; (void) l; }
 #endif
